@@ -179,13 +179,14 @@ MANIFEST_TEXT['C10'] = (
  "Coq proof (invariant over op sequences = interleavings) + model/implementation correspondence", "DESIGN.md §5 C10")
 
 PROPS['C17'] = P(
-    ['keyed_state_is_persistent_and_private', 'call_invariant', 'commands_applied_before_return', 'spawned_error_cases'],
+    ['keyed_state_is_persistent_and_private', 'call_invariant', 'commands_applied_before_return', 'spawned_error_cases',
+     'named_direct_error_cases', 'named_direct_is_named_syscall_when_cached'],
     [], 'full', determined=True, quick_n=3000, thorough_n=60000,
     assumes=['S6: same-key re-entrancy of syscall/named_syscall loses the inner state (documented WARNING): the persistence theorem assumes no key is re-entered (ghost flag s_reent), the model reproduces the documented behaviour and the correspondence covers it (a quarter of the generated trees are re-entrant)',
              'Bevy system initialisation, Local persistence inside an initialised system and apply_deferred are modelled, not verified'])
 PROPS['C17']['engine'] = 'c17'
 MANIFEST_TEXT['C17'] = (
- "Machine-checked over a standalone model of syscall / named_syscall / spawned_syscall, for every call tree (any sequence, any nesting through queued commands, all three entry points): without same-key re-entrancy the n-th body under a key sees Local = n (state persistent per key, independent between keys), every queued command is applied before the call returns, and a missing or currently running spawned system yields Err and runs nothing. Tied to /repo by running generated call trees on the real functions and comparing every body's (key, input, Local) and every return value.",
+ "Machine-checked over a standalone model of syscall / named_syscall / named_syscall_direct / spawned_syscall, for every call tree (any sequence, any nesting through queued commands, all entry points): without same-key re-entrancy the n-th body under a key sees Local = n (state persistent per key, independent between keys), every queued command is applied before the call returns, and a missing or currently running spawned system yields Err and runs nothing; named_syscall_direct yields Err and runs nothing unless the named node exists and holds its system, and is otherwise exactly named_syscall under that key. Tied to /repo by running generated call trees on the real functions and comparing every body's (key, input, Local) and every return value.",
  "Trusted: Coq kernel; Bevy system initialisation / Local / apply_deferred as modelled. The documented same-key re-entrancy behaviour is modelled and compared, not a theorem.",
  "Coq proof (per-key counter invariant over call trees) + model/implementation correspondence", "DESIGN.md §5 C17")
 
